@@ -3,7 +3,7 @@ import json, re, itertools
 from common import *
 import impl, l0
 
-THMS = ["C20_frame_recorded", "C20_frame_rendered", "C20_unbounded_frame_refuted"]
+THMS = ["C20_frame_recorded", "C20_frame_rendered", "C20_unbounded_frame_refuted", "C20_start_after_end_refuted"]
 HEADER = ("From Coq Require Import List ZArith Bool.\nFrom MoSql Require Import Model.Window.\nImport ListNotations.\nOpen Scope Z_scope.\n"
           "Definition oz_eqb (a b : option Z) : bool := match a, b with Some x, Some y => Z.eqb x y | None, None => true | _, _ => false end.\n"
           "Definition mm_eqb (a b : mm) : bool := oz_eqb (fst a) (fst b) && oz_eqb (snd a) (snd b).\n"
